@@ -468,7 +468,30 @@ def bounded(rep, tier):
                         'first unseen / mis-ordered placeholder')
 
 
+
+def walker_dependency(rep, tier):
+    """C12 relies on the contract of query_traversal (C13). The walker obligations are re-evaluated here; a failure that is not a known finding of C13
+    is reported under this property too, because the rewrite / binding built on the walker is then no longer covered by the argument above."""
+    from contracts import C13
+    sub = type(rep)('C13', tier, C13.LEVEL)
+    C13.check(sub, tier)
+    n_ok = sum(1 for o in sub.obs if o.status == PROVED)
+    bad = sub.unlisted_failures()
+    und = [o for o in sub.obs if o.status == UNDECIDED]
+    for x in bad:
+        oid = 'C12.walker.' + x.id.split('.', 1)[1]
+        if hasattr(x, 'status'):
+            rep.failed(oid, x.engine, x.detail, function=x.function, clause=x.clause, replay=x.replay)
+        else:
+            rep.add_bounded(Bounded(oid, False, x.input, x.observed, x.expected, bound=x.bound))
+    for o in und:
+        rep.undecided('C12.walker.' + o.id.split('.', 1)[1], o.engine, o.detail, function=o.function)
+    if not bad and not und:
+        rep.proved('C12.walker', 'pysym', f'{n_ok} walker obligations of C13 hold (its {len(sub.obs) - n_ok} listed findings concern slots this property does not use)',
+                   function='mindsdb_sql.planner.utils:query_traversal', clause='the visitor is applied once to every node reachable through the slots this property uses; replacements land in place')
+
 def check(rep, tier):
+    walker_dependency(rep, tier)
     rep.dropped = 'function bodies read with ast.parse; nested visitor functions are closures executed by pysym; docstrings/comments dropped'
     rep.assume('C13 contract of query_traversal (the visitor is applied once per node in textual order) for node kinds where C13 proves it',
                'copy.deepcopy returns a structure-equal fresh copy', 'PreparedStatementPlanner.plan_query plans the statement it is given')
